@@ -4,6 +4,8 @@ import (
 	"bytes"
 	"context"
 	"fmt"
+
+	"github.com/arr-ai/frozen"
 )
 
 type DictPatternEntry struct {
@@ -42,77 +44,91 @@ func NewDictPattern(entries ...DictPatternEntry) DictPattern {
 }
 
 func (p DictPattern) Bind(ctx context.Context, local Scope, value Value) (context.Context, Scope, error) {
-	dict, is := value.(Dict)
-	if !is {
+	var m frozen.Map[Value, any]
+	switch v := value.(type) {
+	case EmptySet:
+	case Dict:
+		m = v.m
+	default:
 		return ctx, EmptyScope, fmt.Errorf("%s is not a dict", value)
 	}
 
-	extraElements := make(map[int]int)
+	rest, hasFallback := -1, false
 	for i, entry := range p.entries {
 		if _, is := entry.pattern.pattern.(ExtraElementPattern); is {
-			if len(extraElements) == 1 {
+			if rest >= 0 {
 				return ctx, EmptyScope, fmt.Errorf("non-deterministic pattern is not supported yet")
 			}
-			extraElements[i] = dict.Count() - len(p.entries)
+			rest = i
 		}
-		if entry.pattern.fallback != nil {
-			if len(extraElements) == 1 {
-				return ctx, EmptyScope, fmt.Errorf("non-deterministic pattern is not supported yet")
-			}
-			extraElements[i] = dict.Count() - len(p.entries)
-		}
-	}
-
-	if len(p.entries) > dict.Count()+len(extraElements) {
-		return ctx, EmptyScope, fmt.Errorf("length of dict %s shorter than dict pattern %s", dict, p)
-	}
-
-	if len(extraElements) == 0 && len(p.entries) < dict.Count() {
-		return ctx, EmptyScope, fmt.Errorf("length of dict %s longer than dict pattern %s", dict, p)
+		hasFallback = hasFallback || entry.pattern.fallback != nil
 	}
 
 	result := EmptyScope
-	m := dict.m
-	for _, entry := range p.entries {
-		var dictValue Value
-		if _, is := entry.pattern.pattern.(ExtraElementPattern); is {
-			if m.IsEmpty() {
-				dictValue = None
-			} else {
-				dictValue = Dict{m: m}
-			}
-		} else {
-			key := entry.at
-			if lit, is := key.(LiteralExpr); is {
-				key = lit.Literal()
-			}
-
-			dictExpr, found := m.Get(key.(Value))
-			if !found {
-				if entry.pattern.fallback == nil {
-					return ctx, EmptyScope, fmt.Errorf("couldn't find %s in dict %s", key, m)
-				}
-				var err error
-				dictValue, err = entry.pattern.fallback.Eval(ctx, local)
-				if err != nil {
-					return ctx, EmptyScope, err
-				}
-			} else {
-				dictValue = dictExpr.(Value)
-				m = m.Without(key.(Value))
-			}
-		}
-
+	bind := func(pattern Pattern, v Value) error {
 		var scope Scope
 		var err error
-		ctx, scope, err = entry.pattern.pattern.Bind(ctx, local, dictValue)
+		ctx, scope, err = pattern.Bind(ctx, local, v)
 		if err != nil {
-			return ctx, EmptyScope, err
+			return err
 		}
 		result, err = result.MatchedUpdate(scope)
-		if err != nil {
+		return err
+	}
+
+	// The keyed entries first; whatever they leave is what ...rest captures,
+	// wherever it is written.
+	for i, entry := range p.entries {
+		if i == rest {
+			continue
+		}
+		var key Value
+		switch at := entry.at.(type) {
+		case LiteralExpr:
+			key = at.Literal()
+		case Value:
+			key = at
+		default:
+			var err error
+			if key, err = entry.at.Eval(ctx, local); err != nil {
+				return ctx, EmptyScope, err
+			}
+		}
+
+		var dictValue Value
+		if found, has := m.Get(key); has {
+			v, single := found.(Value)
+			if !single {
+				return ctx, EmptyScope, fmt.Errorf("dict %s holds several values for %s", value, key)
+			}
+			dictValue = v
+			m = m.Without(key)
+		} else {
+			if entry.pattern.fallback == nil {
+				return ctx, EmptyScope, fmt.Errorf("couldn't find %s in dict %s", key, value)
+			}
+			var err error
+			if dictValue, err = entry.pattern.fallback.Eval(ctx, local); err != nil {
+				return ctx, EmptyScope, err
+			}
+		}
+		if err := bind(entry.pattern.pattern, dictValue); err != nil {
 			return ctx, EmptyScope, err
 		}
+	}
+
+	switch {
+	case rest >= 0:
+		var remaining Value = None
+		if !m.IsEmpty() {
+			remaining = Dict{m: m}
+		}
+		if err := bind(p.entries[rest].pattern.pattern, remaining); err != nil {
+			return ctx, EmptyScope, err
+		}
+	case !m.IsEmpty() && !hasFallback:
+		// (A pattern with a ?: entry has always tolerated further keys.)
+		return ctx, EmptyScope, fmt.Errorf("length of dict %s longer than dict pattern %s", value, p)
 	}
 
 	return ctx, result, nil
